@@ -11,6 +11,9 @@ EXCS = ['ValueError', 'KeyError', 'TypeError', 'RuntimeError', 'OSError',
         'NotImplementedError', 'SystemExit']
 
 
+CHAINS = ['cause', 'context', 'cause_group']
+
+
 def vary_exceptions(rng, world):
     """replace the exception class of scripted errors by a random one"""
     def walk(actions):
@@ -18,6 +21,8 @@ def vary_exceptions(rng, world):
             if isinstance(a, dict):
                 if a.get('a') == 'error':
                     a['exc'] = rng.choice(EXCS)
+                    if rng.random() < 0.3:
+                        a['chain'] = rng.choice(CHAINS)
                 if 'do' in a:
                     walk(a['do'])
     for t in world['tests'].values():
@@ -28,8 +33,12 @@ def vary_exceptions(rng, world):
     for l in world['layers'].values():
         for h in ('setUp', 'tearDown'):
             if l.get(h) == 'raise':
-                l[h] = rng.choice([e for e in EXCS if e not in
-                                   ('NotImplementedError', 'SystemExit')])
+                exc = rng.choice([e for e in EXCS if e not in
+                                  ('NotImplementedError', 'SystemExit')])
+                if rng.random() < 0.5:
+                    l[h] = {'exc': exc, 'chain': rng.choice(CHAINS)}
+                else:
+                    l[h] = exc
 
 
 def run(chk, tier, seed, replay=None):
